@@ -22,11 +22,10 @@ func runC13(c *Ctx) {
 	const r1 = "C13.R1 cancel mode validated before hand-off"
 	cn := dlr + "cancel"
 	mode := `call:wamp\.AsString\(%msg\.Options\["mode"\]\)#0`
-	// local:mode is reassigned ("" -> killnowait), so it is described flow-insensitively as local:mode
 	c.Guard(r1, cn, "hand-off", `^send:%d\.actionChan<-closure:router\.\(\*dealer\)\.cancel\$1$`, 1,
-		clause("mode is kill, killnowait, skip or empty", T(`^\(local:mode == "killnowait"\)$`), T(`^\(local:mode == "kill"\)$`), T(`^\(local:mode == "skip"\)$`), T(`^\(local:mode == ""\)$`)))
+		clause("mode is kill, killnowait, skip or empty", T(`^\(`+mode+` == "killnowait"\)$`), T(`^\(`+mode+` == "kill"\)$`), T(`^\(`+mode+` == "skip"\)$`), T(`^\(`+mode+` == ""\)$`)))
 	c.AllMatch(r1, cn, "mode variable assigned only from the option or the default", `^store:&local:mode=`, `^store:&local:mode=(`+mode+`|"killnowait")$`, 2)
-	c.Guard(r1, cn, "default applies only to an absent mode", `^store:&local:mode="killnowait"$`, 1, clause("mode empty", T(`^\(local:mode == ""\)$`)))
+	c.Guard(r1, cn, "default applies only to an absent mode", `^store:&local:mode="killnowait"$`, 1, clause("mode empty", T(`^\(`+mode+` == ""\)$`)))
 	c.Has(r1, cn+"$1", "validated mode is the one used", `^call:router\.\(\*dealer\)\.syncCancel\(\^d, \^caller, \^msg, \^mode, "wamp\.error\.canceled", nil\)$`, 1)
 	c.Fields(r1, cn, "invalid mode reply", "wamp.Error", nil, map[string]string{
 		"Error": `^"wamp\.error\.invalid_argument"$`, "Request": `^%msg\.Request$`, "Type": `^call:wamp\.\(\*Cancel\)\.MessageType\(%msg\)$`}, 1)
